@@ -368,6 +368,50 @@ func main() {
 			}
 		}
 	}
+	// 3 threads with programs of 1, 1 and 2 calls around value a, from the shallowest layouts: a
+	// writer of a, a thread that can trigger a promotion (Len, a missing Has, an Add of b), and a
+	// thread making two calls; and (thorough) 3 threads x 2 calls, 1 call against 3 calls
+	{
+		t1 := []call{{"Add", 0}, {"Remove", 0}}
+		t2 := []call{{"Len", 0}, {"Has", 2}, {"Add", 1}}
+		t3 := []call{{"Remove", 0}, {"Add", 1}, {"Add", 0}, {"Has", 0}, {"Len", 0}, {"RemoveSet", 3}}
+		for n, li := range layouts {
+			if n >= ev.Pick(r, 10, 28) {
+				break
+			}
+			for _, a := range t1 {
+				for _, b := range t2 {
+					for _, c1 := range t3 {
+						for _, c2 := range t3 {
+							if c1 == c2 && c1.op != "Add" {
+								continue
+							}
+							if !r.Thorough() && !(c1.op == "Remove" || c2.op == "Add" || c1.op == "RemoveSet") {
+								continue
+							}
+							scs = append(scs, scenario(li, [][]call{{a}, {b}, {c1, c2}}, 2, -2))
+						}
+					}
+				}
+			}
+			if !r.Thorough() {
+				continue
+			}
+			progs := [][]call{{{"Add", 0}, {"Has", 0}}, {{"Remove", 0}, {"Add", 0}}, {{"Add", 0}, {"Remove", 0}}, {{"Add", 1}, {"Len", 0}}, {{"Has", 2}, {"Has", 2}}}
+			for i, a := range progs {
+				for j, b := range progs[i:] {
+					for _, c := range progs[i+j:] {
+						scs = append(scs, scenario(li, [][]call{a, b, c}, 2, -2))
+					}
+				}
+			}
+			for _, a := range []call{{"Add", 0}, {"Remove", 0}, {"Has", 0}, {"Len", 0}} {
+				for _, l := range [][]call{{{"Len", 0}, {"Remove", 0}, {"Add", 1}}, {{"Has", 2}, {"Has", 2}, {"Add", 0}}, {{"Add", 1}, {"Remove", 0}, {"Add", 0}}, {{"Remove", 0}, {"Add", 1}, {"Add", 0}}} {
+					scs = append(scs, scenario(li, [][]call{{a}, l}, 3, -2))
+				}
+			}
+		}
+	}
 	schk.WorkerExtra = func() map[string]int64 {
 		return map[string]int64{"distinct_histories_judged_by_porcupine": int64(lin.Distinct())}
 	}
